@@ -286,7 +286,9 @@ def cmd_tests(jobs):
 
 def cmd_checks(jobs, mx, only):
     ms = load()
-    todo = [m for m in ms if m.get("survives") and "checks" not in m and (not only or only in m["file"])]
+    todo = [m for m in ms if m.get("survives") and "checks" not in m and (not only or only in m["file"])
+            # the pre-3.11 ISO pre-parser of fieldtypes.datetime is dead code on CPython 3.12 (triage batches 11-14: all equivalent)
+            and not (m["file"].endswith("fieldtypes/__init__.py") and 262 <= m["line"] <= 299)]
     if mx:
         # spread the sample over files and kinds deterministically
         todo.sort(key=lambda m: (m["id"] * 2654435761) % 1000003)
